@@ -106,6 +106,8 @@ def main():
         "engines": [
             {"name": "krpv", "path": "harness", "serves_properties": sorted(CHECKS.keys()),
              "kind_free_text": "Rust binary: minichain simulator executing the real contract entry points + proptest-driven generators, per-property oracles, shrinking, JSON replay files, evidence writer"},
+            {"name": "krpv-fuzz", "path": "harness/fuzz", "serves_properties": ["C01","C02","C03","C04","C05","C06","C07","C08","C09","C12","C13","C14","C16","C17","C18","C19"],
+             "kind_free_text": "cargo-fuzz / libFuzzer targets (hist, dist, dispatch, token): bytes -> case through total decoders, the same oracles run inside the target; used by the thorough tier (harness/fuzz/run_fuzz.sh), artifacts are re-checked on the production-like build before being reported"},
         ],
         "checks": checks,
         "not_applicable": na,
